@@ -267,6 +267,8 @@ type c12env struct {
 	rd   c12rd
 	enc  bytes.Buffer
 	wbuf bytes.Buffer
+
+	attrNoted bool
 }
 
 func (e *c12env) reader(size int, data []byte, cuts []int, every bool) *bufio.Reader {
@@ -390,6 +392,10 @@ func (e *c12env) streamOne(c *c12case, data []byte) {
 		// weak reading (see Assume): only frame consumption is required here.
 		if err != nil {
 			r.Outcome("stream: attribute-prefixed reply rejected (frame consumed)")
+			if !e.attrNoted {
+				e.attrNoted = true
+				r.Note("finding candidate (not counted as violation, see assumptions): " + ctx() + " — streamTo rejects a blob string/null reply that is preceded by an attribute frame although readNextMessage decodes the same bytes to the string (simple strings and integers behind an attribute ARE streamed)")
+			}
 		} else {
 			r.Outcome("stream: attribute-prefixed reply written")
 		}
